@@ -17,8 +17,9 @@ for log in sys.argv[1:]:
     dst = os.path.join(V, 'kept', f'{prop}-{x}')
     os.makedirs(dst, exist_ok=True)
     for f in ('patch.diff', 'demo.py', 'notes.md', 'reference.json'):
-        if os.path.exists(os.path.join(obj['dir'], f)):
-            shutil.copy(os.path.join(obj['dir'], f), os.path.join(dst, f))
+        src = os.path.join(obj['dir'], f)
+        if os.path.exists(src) and (f != 'reference.json' or os.path.getsize(src) < 300000):      # big references are re-created by the demo on the clean tree
+            shutil.copy(src, os.path.join(dst, f))
     meta = {'property': prop, 'origin': 'independent sub-agent asked for a substantial change that PRESERVES the property (only the property text and a scratch worktree were given)',
             'why_preserving': open(os.path.join(dst, 'notes.md')).read()[:1500],
             'confirmed': {'how': 'tools/keep_run.py confirm (scratch worktree of /repo HEAD, removed afterwards)',
